@@ -6,6 +6,7 @@ import z3
 
 from symx import core, npmodel
 from symx.core import SB, SV, model_value
+from symx.ev import EV
 from . import aud
 
 PROPERTY = "C07"
@@ -41,6 +42,8 @@ def spec(M, C, pres, sn, n):
 
 
 def run_cell(cell):
+    from symx import pymodel
+    pymodel.EXACT_FLOAT_OF_INT[0] = True      # sample numbers go beyond 2^53: float(n) rounds
     ex = core.Explorer()
     findings, samples = [], []
     st = {'reach': 0}
@@ -136,7 +139,10 @@ def run_cell(cell):
             if thr is None:
                 claims.append((f"threshold of contest {c} set when n_c >= 1", n[c] == 0))
             else:
-                thr_e = thr.e if isinstance(thr, SV) else z3.IntVal(int(thr))
+                if isinstance(thr, EV):      # a threshold held as a float: compared as a real with the (integer) sample numbers
+                    thr_e = thr.v
+                else:
+                    thr_e = thr.e if isinstance(thr, SV) else z3.IntVal(int(thr))
                 claims.append((f"threshold of contest {c} = sample number of its n_c-th card",
                                z3.Implies(n[c] >= 1, z3.Or(*[z3.And(pres[i][c], rank[(i, c)] == n[c] - 1, thr_e == sn[i]) for i in range(M)]))))
             d = data[c]
